@@ -1,6 +1,7 @@
 SPECIFICATION Spec
 CONSTANTS
   MaxSet = 99
+  Bases <- BasesNone
   Ordered = FALSE
 ACTION_CONSTRAINT EmitBehaviour
 CHECK_DEADLOCK FALSE
